@@ -17,7 +17,9 @@ from cddvc import e1
 from cddvc.report import Run, compare_baseline
 from checks import common, domain
 
-TYPES = ["int", "float", "str", "bool", "dict", "Optional[int]", "Optional[str]", "Optional[float]", "Optional[bool]", "Optional[dict]", "Literal['x', 'y']", "Literal['http1', 'adam_w', 'q-r']"]
+TYPES = ["int", "float", "str", "bool", "dict", "Optional[int]", "Optional[str]", "Optional[float]", "Optional[bool]", "Optional[dict]", "Literal['x', 'y']", "Literal['http1', 'adam_w', 'q-r']",
+         # members that are not their own regular expression / contain the separator / contain the quote the parser wraps them in
+         "Literal['a.c', 'b']", "Literal['a|b', 'c']", "Literal['(x', 'c+']", "Literal[\"it's\", 'c']"]
 
 
 def literal_members(typ):
@@ -27,8 +29,21 @@ def literal_members(typ):
     return list(ast.literal_eval("(%s,)" % m.group(1))) if m else None
 
 
+def member_class(mem):
+    """What kind of Literal members an interface has; part of the failure class of the two Literal clauses"""
+    if any(c in m for m in mem for c in ".^$*+?{}[]\\|()"):
+        return "regex-special"
+    return "quote" if any("'" in m for m in mem) else "plain"
+
+
 def check_ir(ir):
-    """-> None or (kind, what)"""
+    """-> list of (kind, what[, extra key]); failures of the Literal clauses on awkward members do not stop the other clauses"""
+    soft = []
+    r = _check_ir(ir, soft)
+    return soft + ([r] if r else [])
+
+
+def _check_ir(ir, soft):
     import jsonschema
 
     import cdd.json_schema.emit
@@ -46,7 +61,11 @@ def check_ir(ir):
     try:
         jsonschema.Draft202012Validator.check_schema(schema)
     except Exception as ex:
-        return ("invalid-schema", str(ex).splitlines()[0])
+        mems = [m for p in src["params"].values() for m in (literal_members(p.get("typ", "")) or [])]
+        if "is not a 'regex'" in str(ex) and mems and member_class(mems) == "regex-special":
+            soft.append(("invalid-schema", str(ex).splitlines()[0], {"members": "regex-special"}))
+        else:
+            return ("invalid-schema", str(ex).splitlines()[0])
     want_req = [n for n, p in src["params"].items() if not p.get("typ", "").startswith("Optional[")]
     if schema.get("required") != want_req:
         return ("required", "required is %r, expected %r (exactly the non-Optional parameters, in order)" % (schema.get("required"), want_req))
@@ -58,12 +77,24 @@ def check_ir(ir):
             try:
                 jsonschema.validate(prop["default"], prop, cls=jsonschema.Draft202012Validator)
             except Exception as ex:
+                try:
+                    re.compile(prop.get("pattern") or "")
+                except re.error:
+                    continue  # the pattern is not a regular expression: already reported as invalid-schema / pattern
                 return ("default-invalid", "default %r of %s does not validate against its own property schema %r" % (prop["default"], n, prop))
         mem = literal_members(p.get("typ", ""))
         if mem is not None:
             pat = prop.get("pattern")
-            if pat is None or not all(re.fullmatch(pat, m) for m in mem) or re.fullmatch(pat, "".join(mem) + "_zz") or re.fullmatch(pat, mem[0][:-1] if len(mem[0]) > 1 else "q"):
-                return ("pattern", "pattern %r does not accept exactly %r" % (pat, mem))
+            try:
+                near = ["".join(mem) + "_zz", mem[0][:-1] if len(mem[0]) > 1 else "q"] + [m.replace(c, "Q") for m in mem for c in m if not c.isalnum()] + [p_ for m in mem for p_ in m.split("|")]
+                bad = pat is None or not all(re.fullmatch(pat, m) for m in mem) or any(re.fullmatch(pat, x) for x in near if x not in mem)
+            except re.error as ex:
+                soft.append(("pattern", "pattern %r is not a regular expression (%s); members %r" % (pat, ex, mem), {"members": member_class(mem)}))
+                bad = False
+            if bad and member_class(mem) == "plain":
+                return ("pattern", "pattern %r does not accept exactly %r" % (pat, mem), {"members": "plain"})
+            if bad:
+                soft.append(("pattern", "pattern %r does not accept exactly %r" % (pat, mem), {"members": member_class(mem)}))
     try:
         back = cdd.json_schema.parse.json_schema(json.loads(text))
     except Exception as ex:
@@ -74,8 +105,15 @@ def check_ir(ir):
             return ("roundtrip", "parameter %s lost" % n)
         st, qt = p.get("typ"), q.get("typ")
         if literal_members(st or "") is not None:
-            if set(literal_members(st)) != set(literal_members(qt or "") or []):
-                return ("roundtrip-literal", "%s: %r came back as %r" % (n, st, qt))
+            try:
+                back_mem = set(literal_members(qt or "") or [])
+            except SyntaxError:
+                back_mem = None
+            if set(literal_members(st)) != back_mem:
+                mc = member_class(literal_members(st)) + ("+separator" if any("|" in m for m in literal_members(st)) else "")
+                if mc == "plain":
+                    return ("roundtrip-literal", "%s: %r came back as %r" % (n, st, qt), {"members": mc})
+                soft.append(("roundtrip-literal", "%s: %r came back as %r" % (n, st, qt), {"members": mc}))
         elif st != qt:
             return ("roundtrip-typ", "%s: type %r came back as %r" % (n, st, qt))
         sd = p.get("default", domain.ABSENT)
@@ -93,12 +131,36 @@ def check_ir(ir):
     return None
 
 
+def literal_replay():
+    """The clause S6 / S7 carry, on the real emitter and parser: separator-free Literal members come back as the same set"""
+    from collections import OrderedDict
+
+    import cdd.json_schema.emit
+    import cdd.json_schema.parse
+
+    for mem in (["x"], ["x", "y"], ["http1", "adam_w", "q-r"], ["b", "a", "c", "aa"], ["with space", "tab\tin", "semi;colon", "comma,sep", "sl/ash"], ["x", ""], ["x y", "x", "y"]):
+        typ = "Literal[%s]" % ", ".join(map(repr, mem))
+        ir = {"name": "Conf", "doc": "Summary.", "params": OrderedDict((("alpha", {"typ": typ, "doc": "the alpha"}),)), "returns": None}
+        try:
+            sch = cdd.json_schema.emit.json_schema(copy.deepcopy(ir))
+            back = cdd.json_schema.parse.json_schema(json.loads(json.dumps(sch)))
+            got = literal_members((back["params"].get("alpha") or {}).get("typ") or "")
+        except Exception:
+            continue  # "whenever it returns"
+        if got is None or set(got) != set(mem):
+            return {"ir": json.loads(json.dumps(ir)), "what": "members %r came back as %r (pattern %r)" % (mem, got, sch["properties"]["alpha"].get("pattern"))}
+    return None
+
+
 def required_replay(_name):
     """The clause S1-S4 carry, on the real json_schema(): `required` == the non-Optional names in declaration order"""
     import itertools
     from collections import OrderedDict
 
     import cdd.json_schema.emit
+
+    if "/S6-" in _name or "/S7-" in _name:
+        return literal_replay()
 
     shapes = [("b_req", "int"), ("a_opt", "Optional[int]"), ("z_req", "str"), ("c_req", "bool"), ("y_opt", "Optional[str]")]
     for n in (1, 2, 3, 5):
@@ -138,9 +200,9 @@ def bounded(tier, seed):
                 cases.append({"name": "Conf", "doc": "Summary of it.", "params": OrderedDict(((nm, p_), ("alpha", OrderedDict((("typ", "int"), ("doc", "the alpha")))))), "returns": None})
     res = common.pmap(check_ir, cases)
     fails = {}
-    for ir, r in zip(cases, res):
-        if r:
-            fails.setdefault(r[0], (ir, r[1]))
+    for ir, rs in zip(cases, res):
+        for r in rs:
+            fails.setdefault((r[0],) + tuple(sorted((r[2] if len(r) > 2 else {}).items())), (ir, r[1]))
     distinct = len({json.dumps(domain.project(ir), default=str) for ir in cases if ir["params"]})
     return len(cases), distinct, fails
 
@@ -151,7 +213,7 @@ def main(tier, write_baseline=False):
     refuted = e1.run_contracts(run, "contracts.C06")
     # fold lemma (Lean 4 kernel): with the callee contract above and side conditions S1-S4, `required` is the list of
     # the non-Optional parameter names in order, for parameter lists of any length
-    common.lean_theorems(run, "C06", "C06.lean", ("required_is_filter", "required_iff_not_optional"))
+    common.lean_theorems(run, "C06", "C06.lean", ("required_is_filter", "required_iff_not_optional", "pattern_roundtrip"))
     run.trusted_base.add("Lean 4.33 kernel (lean/C06.lean, no Mathlib): the fold lemma; that dict(map(f, xs)) is that fold rests on S1-S4 (rule engine) and on CPython evaluating map lazily in order")
     refuted, rule_inputs = run.confirm_or_undecide(refuted, required_replay)
     if write_baseline:
@@ -165,7 +227,7 @@ def main(tier, write_baseline=False):
             "bound": "JSON-representable slice of IR(n): %d types x defaults x 3 description kinds; n <= 2 %s x {doc, no doc} x {return, no return}; n <= 8 seeded sample; every type under the parameter names loader_kwargs / kwargs / num_kwargs" % (len(TYPES), "exhaustive" if tier == "thorough" else "sampled (1500 per combination)"),
             "rule": "distinct interface projections with at least one parameter",
             "evaluations": n, "distinct_nontrivial": distinct,
-            "failures": [{"kind": k, "what": v[1][:300], "ir": json.dumps(v[0], default=str)[:300]} for k, v in list(fails.items())[:5]],
+            "failures": [{"kind": "|".join(map(str, k)), "what": v[1][:300], "ir": json.dumps(v[0], default=str)[:300]} for k, v in list(fails.items())[:5]],
         })
     seen = set()
     for o in refuted:
@@ -176,8 +238,9 @@ def main(tier, write_baseline=False):
         fi = rule_inputs.get(o["name"]) or common.model_replay("contracts.C06", o) or ({"ir": json.loads(json.dumps(cand[0], default=str)), "what": cand[1]} if cand else None)
         run.violation(o["name"], "obligation refuted by %s on path %s%s" % (o["backend"], " ".join(o["trace"]), (": " + "; ".join(o.get("notes") or [])[:300]) if o.get("notes") else ""),
                       failing_input=fi, solver_output={"model": o["model"], "smt2": (o["smt2"] or "")[:5000]})
-    for kind, (ir, what) in fails.items():
-        run.violation("C06/bounded/%s" % kind, what, key={"kind": kind}, failing_input={"ir": json.loads(json.dumps(ir, default=str))})
+    for fk, (ir, what) in fails.items():
+        kind = fk[0]
+        run.violation("C06/bounded/%s" % kind, what, key=dict({"kind": kind}, **dict(fk[1:])), failing_input={"ir": json.loads(json.dumps(ir, default=str))})
     common.apply_controls(run, tier)
     return run.finish(explanation="PROVED (all inputs, any number of parameters): `required` of json_schema() is exactly the non-Optional parameter names in declaration order = callee contract of param2json_schema_property (E1) + fold lemma (Lean) + fold-shape side conditions S1-S4 (rule engine); also doc->description, typ key removed. "
                       "BOUNDED only: meta-schema validity, defaults against their property schema, Literal patterns, serialisability, parse-back equality.")
